@@ -504,71 +504,77 @@ def _var_kind(ctx: Ctx, fi: FunctionInfo, a: Atom, auth_p: str) -> tuple[set[str
     return attrs, lossy
 
 
+def check_aad_function(ctx: Ctx, fq: str, tag: str) -> list[tuple[ast.Return, list[Atom]]]:
+    """Identity-binding obligations of one AAD builder (instances suffixed ``:tag``; reused by C25 for the AAD the
+    sticky codec is sealed under).  Returns the flattened return forms."""
+    fi = ctx.fn(fq)
+    cfg = cfg_of(fi.node)
+    ps = params_of(fi)
+    if not ps:
+        raise AnalysisError(f"C12: {fi.fq} has no auth parameter")
+    auth_p = ps[0]
+    rets = [n for n in walk_scope(fi.node) if isinstance(n, ast.Return) and n.value is not None]
+    some(rets, "return of the AAD", fi, 2)
+    forms = [(r, flatten_concat(ctx, fi, r.value)) for r in rets]
+    for _r, atoms in forms:
+        if not atoms or not atoms[0].is_const or not isinstance(atoms[0].const, bytes):
+            raise AnalysisError(f"C12: AAD form `{atoms}` in {fi.fq} does not start with a constant bytes prefix")
+        consts = [(r, a) for r, a in forms if all(x.is_const for x in a)]
+    varfs = [(r, a) for r, a in forms if not all(x.is_const for x in a)]
+    if not varfs:
+        ctx.fail("RF-INJ", f"aad-binds-domain-and-principal:{tag}", fi, rets[0], "no AAD form depends on the caller identity: tokens are not identity-bound")
+        return forms
+    # anonymous constant cannot be produced by the identity form
+    for r, a in consts:
+        c = a[0].const
+        assert isinstance(c, bytes)
+        clash = [va for _vr, va in varfs if c.startswith(va[0].const)]  # type: ignore[arg-type]
+        ctx.check(not clash, "RF-INJ", f"aad-anonymous-differs-from-authenticated:{tag}", fi, r,
+                  ok="the anonymous AAD constant and the authenticated form differ in a fixed discriminator position",
+                  bad=f"anonymous AAD {c!r} can be produced by the authenticated form {clash[0] if clash else ''} (e.g. empty domain, principal 'anonymous'): an authenticated caller can open anonymous tokens and vice versa")
+    for r, a in varfs:
+        vs = [(i, x) for i, x in enumerate(a) if not x.is_const]
+        attrs: set[str] = set()
+        lossy: list[str] = []
+        for _i, x in vs:
+            at, lo = _var_kind(ctx, fi, x, auth_p)
+            attrs |= at
+            lossy += lo
+        ctx.check({"domain", "principal"} <= attrs, "RF-INJ", f"aad-binds-domain-and-principal:{tag}", fi, r,
+                  ok="both auth.domain and auth.principal are part of the AAD", bad=f"the AAD binds only {sorted(attrs)}: tokens are accepted across callers that differ in the missing component")
+        ctx.check(not lossy, "RF-INJ", f"aad-identity-components-lossless:{tag}", fi, r, ok="identity components are only encoded, never truncated or case-folded",
+                  bad=f"identity components pass through lossy operations {lossy}: distinct identities share one AAD")
+        unframed = []
+        for j, (i, x) in enumerate(vs[:-1]):
+            nxt = a[i + 1] if i + 1 < len(a) else None
+            framed_len = i > 0 and not a[i - 1].is_const and "len(" in txt(a[i - 1].expr) and "pack" in txt(a[i - 1].expr)
+            if not ((nxt is not None and nxt.is_const and len(nxt.const) > 0) or framed_len):  # type: ignore[arg-type]
+                unframed.append(x)
+        # length fields themselves are not identity variables
+        ctx.check(not unframed, "RF-INJ", f"aad-identity-framing-injective:{tag}", fi, r,
+                  ok="every identity component but the last is followed by a constant delimiter (NUL; domains are NUL-free by assumption) or is length-prefixed",
+                  bad=f"`{txt(unframed[0].expr) if unframed else ''}` is concatenated with the next component without a delimiter or length prefix: (domain, principal) pairs whose concatenations coincide share one AAD")
+    # the authenticated caller takes the identity branch
+    tests = [n for n in walk_scope(fi.node) if isinstance(n, ast.If)]
+    if len(tests) == 1:
+        t = tests[0]
+        env_auth: dict[str, object] = {f"{auth_p} is None": False, f"{auth_p} is not None": True, f"{auth_p}.authenticated": True, f"not {auth_p}": False, auth_p: True}
+        lab = "T" if mini_eval(t.test, env_auth) else "F"
+        r_auth = cfg.reach(edge_targets(cfg, t, lab))
+        const_ret_nodes = set()
+        for r, _a in consts:
+            const_ret_nodes |= cfg.done(r)
+        ctx.check(not (r_auth & const_ret_nodes), "RF-DOM", f"aad-authenticated-caller-gets-identity-form:{tag}", fi, t,
+                  ok=f"`{txt(t.test)}`: an authenticated caller never receives the anonymous constant", bad="an authenticated caller can receive the anonymous (shared) AAD")
+    elif tests:
+        raise AnalysisError(f"C12: unsupported branching in {fi.fq}")
+    return forms
+
+
 def _check_aad(ctx: Ctx) -> None:
     langs: dict[str, list[tuple[ast.Return, list[Atom]]]] = {}
     for kind in ("cursor", "call"):
-        fi = ctx.fn(AAD[kind])
-        cfg = cfg_of(fi.node)
-        ps = params_of(fi)
-        if not ps:
-            raise AnalysisError(f"C12: {fi.fq} has no auth parameter")
-        auth_p = ps[0]
-        rets = [n for n in walk_scope(fi.node) if isinstance(n, ast.Return) and n.value is not None]
-        some(rets, "return of the AAD", fi, 2)
-        forms = [(r, flatten_concat(ctx, fi, r.value)) for r in rets]
-        for _r, atoms in forms:
-            if not atoms or not atoms[0].is_const or not isinstance(atoms[0].const, bytes):
-                raise AnalysisError(f"C12: AAD form `{atoms}` in {fi.fq} does not start with a constant bytes prefix")
-        langs[kind] = forms
-        consts = [(r, a) for r, a in forms if all(x.is_const for x in a)]
-        varfs = [(r, a) for r, a in forms if not all(x.is_const for x in a)]
-        if not varfs:
-            ctx.fail("RF-INJ", f"aad-binds-domain-and-principal:{kind}", fi, rets[0], "no AAD form depends on the caller identity: tokens are not identity-bound")
-            continue
-        # anonymous constant cannot be produced by the identity form
-        for r, a in consts:
-            c = a[0].const
-            assert isinstance(c, bytes)
-            clash = [va for _vr, va in varfs if c.startswith(va[0].const)]  # type: ignore[arg-type]
-            ctx.check(not clash, "RF-INJ", f"aad-anonymous-differs-from-authenticated:{kind}", fi, r,
-                      ok="the anonymous AAD constant and the authenticated form differ in a fixed discriminator position",
-                      bad=f"anonymous AAD {c!r} can be produced by the authenticated form {clash[0] if clash else ''} (e.g. empty domain, principal 'anonymous'): an authenticated caller can open anonymous tokens and vice versa")
-        for r, a in varfs:
-            vs = [(i, x) for i, x in enumerate(a) if not x.is_const]
-            attrs: set[str] = set()
-            lossy: list[str] = []
-            for _i, x in vs:
-                at, lo = _var_kind(ctx, fi, x, auth_p)
-                attrs |= at
-                lossy += lo
-            ctx.check({"domain", "principal"} <= attrs, "RF-INJ", f"aad-binds-domain-and-principal:{kind}", fi, r,
-                      ok="both auth.domain and auth.principal are part of the AAD", bad=f"the AAD binds only {sorted(attrs)}: tokens are accepted across callers that differ in the missing component")
-            ctx.check(not lossy, "RF-INJ", f"aad-identity-components-lossless:{kind}", fi, r, ok="identity components are only encoded, never truncated or case-folded",
-                      bad=f"identity components pass through lossy operations {lossy}: distinct identities share one AAD")
-            unframed = []
-            for j, (i, x) in enumerate(vs[:-1]):
-                nxt = a[i + 1] if i + 1 < len(a) else None
-                framed_len = i > 0 and not a[i - 1].is_const and "len(" in txt(a[i - 1].expr) and "pack" in txt(a[i - 1].expr)
-                if not ((nxt is not None and nxt.is_const and len(nxt.const) > 0) or framed_len):  # type: ignore[arg-type]
-                    unframed.append(x)
-            # length fields themselves are not identity variables
-            ctx.check(not unframed, "RF-INJ", f"aad-identity-framing-injective:{kind}", fi, r,
-                      ok="every identity component but the last is followed by a constant delimiter (NUL; domains are NUL-free by assumption) or is length-prefixed",
-                      bad=f"`{txt(unframed[0].expr) if unframed else ''}` is concatenated with the next component without a delimiter or length prefix: (domain, principal) pairs whose concatenations coincide share one AAD")
-        # the authenticated caller takes the identity branch
-        tests = [n for n in walk_scope(fi.node) if isinstance(n, ast.If)]
-        if len(tests) == 1:
-            t = tests[0]
-            env_auth: dict[str, object] = {f"{auth_p} is None": False, f"{auth_p} is not None": True, f"{auth_p}.authenticated": True, f"not {auth_p}": False, auth_p: True}
-            lab = "T" if mini_eval(t.test, env_auth) else "F"
-            r_auth = cfg.reach(edge_targets(cfg, t, lab))
-            const_ret_nodes = set()
-            for r, _a in consts:
-                const_ret_nodes |= cfg.done(r)
-            ctx.check(not (r_auth & const_ret_nodes), "RF-DOM", f"aad-authenticated-caller-gets-identity-form:{kind}", fi, t,
-                      ok=f"`{txt(t.test)}`: an authenticated caller never receives the anonymous constant", bad="an authenticated caller can receive the anonymous (shared) AAD")
-        elif tests:
-            raise AnalysisError(f"C12: unsupported branching in {fi.fq}")
+        langs[kind] = check_aad_function(ctx, AAD[kind], kind)
     # cursor and call AAD languages are disjoint
     bad = None
     for _r1, a1 in langs.get("cursor", []):
